@@ -23,7 +23,7 @@
 (***************************************************************************)
 EXTENDS Naturals, Integers, Sequences, FiniteSets, FiniteSetsExt, TLC, TLCExt, Wire, WireMsg
 
-CONSTANTS PROTO, MaxTask, MaxEnv, MaxFrames, H, Notifies, F_WATCHDOG, F_RECHECK, Cmds, PostInit, Record
+CONSTANTS PROTO, MaxTask, MaxEnv, MaxFrames, H, Notifies, F_WATCHDOG, F_RECHECK, F_ZONE2AC, Cmds, PostInit, Subs, Record
 
 U == 5000                       \* ms per model time unit
 INIT_T == 1                     \* init() waits 5 s
@@ -92,6 +92,8 @@ S0 == [state |-> 0,               \* 0 CLOSED, 1 CONNECTING, 2..7 INIT_k (reques
        initialised |-> FALSE, sopen |-> FALSE, sconn |-> FALSE, subscribed |-> FALSE, shutDone |-> FALSE,
        hbTasks |-> <<>>, hbSub |-> FALSE, pollTask |-> None, resp |-> FALSE, gresp |-> FALSE,
        inbox |-> <<>>, reader |-> None,
+       subs |-> {},              \* callbacks subscribed: "A" all updates of AC 0, "S" its AC state, "Z" zone 0, "T" the AirTouch
+       objAc |-> "none", objZone |-> "none", objTimer |-> "none", objVer |-> "none",   \* which report each part of the object model holds
        squeue |-> <<>>,          \* commands the socket holds for a down link: [id, msg, expiry]
        everInit |-> FALSE,
        task |-> <<>>, ready |-> <<>>, running |-> None, batch |-> 0,
@@ -125,18 +127,39 @@ Send(s, kind) == IF s.sopen /\ s.sconn THEN <<TxEv(s, kind)>> ELSE <<>>
 
 Cancel(s, t) == [s EXCEPT !.task[t].pc = "done", !.task[t].wake = INF]
 
+SetToSeqS(X) == LET RECURSIVE F(_)
+                    F(Y) == IF Y = {} THEN <<>> ELSE LET m == CHOOSE m \in Y : \A y \in Y : TLCFP(m) <= TLCFP(y) IN <<m>> \o F(Y \ {m})
+                IN F(X)
 SetToSeqI(X) == LET RECURSIVE F(_)
                     F(Y) == IF Y = {} THEN <<>> ELSE LET m == Min(Y) IN <<m>> \o F(Y \ {m})
                 IN F(X)
 
 
 -----------------------------------------------------------------------------
+\* subscribers: who is called for a frame that changes the part of the model it concerns (an AC's
+\* full subscribers also hear about its zones); the object model remembers which report it holds
+SubTarget(w) == CASE w = "A" -> "ac:0" [] w = "S" -> "ac:0" [] w = "Z" -> "zone:0" [] OTHER -> "airtouch"
+SubKind(w)   == CASE w = "A" -> "ac" [] w = "S" -> "ac_state" [] w = "Z" -> "zone" [] OTHER -> "airtouch"
+Part(f) == CASE f \in {"acstatus", "acstatus2"} -> "objAc" [] f \in {"zonestatus", "zonestatus2"} -> "objZone"
+             [] f = "timer" -> "objTimer" [] f = "version" -> "objVer" [] OTHER -> "none"
+Changes(s, f) == Part(f) # "none" /\ s[Part(f)] # f
+Heard(s, f) == IF ~Changes(s, f) THEN {}
+               ELSE CASE Part(f) = "objAc" -> s.subs \cap {"A", "S"}
+                      [] Part(f) = "objTimer" -> s.subs \cap {"A", "S"}
+                      [] Part(f) = "objZone" -> s.subs \cap (IF F_ZONE2AC THEN {"A", "Z"} ELSE {"Z"})   \* (FALSE: the AC relay is missing - sensitivity)
+                      [] OTHER -> s.subs \cap {"T"}
+Cbs(s, f) == LET q == SetToSeqS(Heard(s, f))
+             IN [i \in 1..Len(q) |-> Ev(s, [e |-> "cb", t |-> 0, who |-> q[i], id |-> 0])]
+Hold(s, f) == IF Part(f) = "none" THEN s ELSE [s EXCEPT ![Part(f)] = f]
+
 Seg(s, t) ==
   LET me == s.task[t]
       pc == me.pc
   IN
   CASE pc = "I0" ->       \* init(): state, subscribe, open socket
-        LET s1 == [s EXCEPT !.state = 1, !.subscribed = TRUE, !.sopen = TRUE]
+        LET s1 == [s EXCEPT !.state = 1, !.subscribed = TRUE, !.sopen = TRUE,
+                            \* the AC and zone objects are built anew by the handshake: their subscribers go with the old ones
+                            !.subs = @ \cap {"T"}, !.objAc = "none", !.objZone = "none", !.objTimer = "none"]
         IN IF s.initialised THEN {R(Done(s1, t), <<Ev(s, [e |-> "retapi", t |-> 0, id |-> me.cid, res |-> "ok", val |-> TRUE, method |-> "init"])>>)}
            ELSE {R(Stop([s1 EXCEPT !.task[t].pc = "I1", !.task[t].wake = s.now + INIT_T]), <<>>)}
   [] pc = "I2" ->         \* wait_for returned (event set or 5 s elapsed)
@@ -179,11 +202,11 @@ Seg(s, t) ==
                  answers == s.state \in 2..7 /\ (f = HSK[k] \/ (f = "zonestatus2" /\ k = 6) \/ (f = "acstatus2" /\ k = 4))
              IN IF answers
                 THEN IF k \in {1, 2, 3}
-                     THEN {R(Cont(SetPc([s2 EXCEPT !.state = @ + 1], t, "R0"), t), dv \o Send(s2, HSK[k + 1]))}
-                     ELSE { R(r, dv) : r \in NotifyAwait(s2, t, "Rh") }    \* await self._process_*_message(...)
+                     THEN {R(Cont(SetPc([Hold(s2, f) EXCEPT !.state = @ + 1], t, "R0"), t), dv \o Cbs(s2, f) \o Send(s2, HSK[k + 1]))}
+                     ELSE { R(r, dv \o Cbs(s2, f)) : r \in NotifyAwait(Hold(s2, f), t, "Rh") }    \* await self._process_*_message(...)
                 ELSE IF s.state = 8 /\ f \in {"acstatus", "acstatus2", "timer", "zonestatus", "zonestatus2", "version"}
                 THEN LET s3 == IF PROTO = "at4" /\ f \in {"zonestatus", "zonestatus2"} THEN [s2 EXCEPT !.gresp = TRUE] ELSE s2
-                     IN { R(r, dv) : r \in NotifyAwait(s3, t, "R0") }
+                     IN { R(r, dv \o Cbs(s3, f)) : r \in NotifyAwait(Hold(s3, f), t, "R0") }
                 ELSE {R(Cont(SetPc(s2, t, "R0"), t), dv)}
   [] pc = "Rh" ->         \* after the awaited status update of handshake step 4, 5 or 6
         LET f == me.arg
@@ -356,6 +379,17 @@ CallCmd(k) ==
                          kwargs |-> <<>>, tk |-> c.tk, tn |-> c.tn])>>,
                 [op |-> "call", target |-> c.target, method |-> c.method, args |-> c.args])
 
+Subscribe(w) ==
+  /\ Subs /\ w \notin S.subs /\ (w = "T" \/ S.state = 8)
+  /\ EnvStep([S EXCEPT !.subs = @ \cup {w}],
+             <<Ev(S, [e |-> "subapi", t |-> 0, who |-> w, target |-> SubTarget(w), kind |-> SubKind(w), incb |-> FALSE])>>,
+             [op |-> "sub", who |-> w, target |-> SubTarget(w), kind |-> SubKind(w)])
+Unsubscribe(w) ==
+  /\ Subs /\ w \in S.subs
+  /\ EnvStep([S EXCEPT !.subs = @ \ {w}],
+             <<Ev(S, [e |-> "unsubapi", t |-> 0, who |-> w, target |-> SubTarget(w), kind |-> SubKind(w), incb |-> FALSE])>>,
+             [op |-> "unsub", who |-> w, target |-> SubTarget(w), kind |-> SubKind(w)])
+
 Tick(dt) ==
   /\ Quiet(S)
   /\ IF Sleepers(S) = {} THEN TRUE ELSE S.now + dt <= MinWake(S)
@@ -380,6 +414,7 @@ Env == IF Warmup
        THEN CallInit \/ ConnUp \/ (S.state \in 2..7 /\ S.inbox = <<>> /\ Deliver(HSK[S.state - 1]))
        ELSE \/ CallInit \/ CallShutdown \/ ConnUp \/ ConnDown
             \/ \E k \in 1..3 : CallCmd(k)
+            \/ \E w \in {"A", "S", "Z", "T"} : Subscribe(w) \/ Unsubscribe(w)
             \/ \E k \in Kinds : Useful(k) /\ Deliver(k)
             \/ \E dt \in Dts : Tick(dt)
             \/ TickToTimer \/ Checkpoint
